@@ -332,6 +332,83 @@ def shard_config(arg):
     return sh
 
 
+REUSE_ENTRIES = ["sign_det", "sign_entropy", "sign_digest_det",
+                 "sign_digest_entropy"]
+REUSE_BUFFERS = ["bytearray", "memoryview-bytearray", "array-B"]
+
+
+def reuse_case(kind, cref, d, entry, btype, m1, m2):
+    """ONE mutable buffer object is signed, refilled in place with another
+    message of the same length and signed again by the same key object; every
+    signature must verify over the bytes the buffer held when it was made
+    (handed to the verifier as immutable bytes and as the buffer itself)."""
+    import array
+    from ecdsa.keys import SigningKey, BadSignatureError
+    from ecdsa.ecdsa import RSZeroError
+    curve = resolve_curve(kind, cref)
+    hf = hashlib.sha1
+    sk = SigningKey.from_secret_exponent(d, curve, hashfunc=hf)
+    vk = sk.verifying_key
+    if btype == "array-B":
+        store = array.array("B", m1)
+        buf = store
+    else:
+        store = bytearray(m1)
+        buf = memoryview(store) if btype.startswith("memoryview") else store
+    digest = "digest" in entry
+    for step, m in enumerate((m1, m2)):
+        if step:
+            store[:] = array.array("B", m) if btype == "array-B" else m
+        try:
+            if entry == "sign_det":
+                sig = sk.sign_deterministic(buf)
+            elif entry == "sign_entropy":
+                sig = sk.sign(buf, entropy=Stream(b"reuse"))
+            elif entry == "sign_digest_det":
+                sig = sk.sign_digest_deterministic(buf, allow_truncate=True)
+            else:
+                sig = sk.sign_digest(buf, entropy=Stream(b"reuse"),
+                                     allow_truncate=True)
+        except RSZeroError:
+            continue
+        for how, payload in (("bytes", bytes(m)), ("buffer", buf)):
+            try:
+                if digest:
+                    ok = vk.verify_digest(sig, payload, allow_truncate=True)
+                else:
+                    ok = vk.verify(sig, payload)
+            except BadSignatureError:
+                ok = "BadSignatureError"
+            if ok is not True:
+                return ("buffer-reuse:%s:verify-%s" % (
+                    "second-signature" if step else "first-signature", how),
+                    True, ok)
+    return None
+
+
+def shard_reuse(arg):
+    kind, cref, ds, msgs = arg
+    sh = Shard()
+    for d in ds:
+        for entry in REUSE_ENTRIES:
+            for btype in REUSE_BUFFERS:
+                for m1 in msgs:
+                    for m2 in msgs:
+                        sh.n += 1
+                        sh.nt += 1
+                        bad = reuse_case(kind, cref, d, entry, btype, m1, m2)
+                        if bad:
+                            sh.hist["fail:" + bad[0]] += 1
+                            sh.violation("reuse", bad[0], dict(
+                                kind=kind, cref=cref, d=d, entry=entry,
+                                btype=btype, m1=m1, m2=m2), bad[1], bad[2])
+                        else:
+                            sh.hist["reuse-ok:" + entry] += 1
+    sh.sample(dict(curve=str(cref)[:60], sequence="sign(buffer=m1); refill "
+                   "in place with m2; sign(buffer) on one key object"), cap=1)
+    return sh
+
+
 def resolve_curve(kind, cref):
     if kind == "real":
         from ecdsa import curves as cv
@@ -347,6 +424,9 @@ def replay(check, case):
         env = ecd.env_for(case["rec"])
         sk = SigningKey.from_secret_exponent(case["d"], env.curve)
         bad = det_case(env, sk, sk.verifying_key, case["digest"], case["hash"])
+    elif check == "reuse":
+        bad = reuse_case(case["kind"], case["cref"], case["d"], case["entry"],
+                         case["btype"], case["m1"], case["m2"])
     elif check == "config":
         curve = resolve_curve(case["kind"], case["cref"])
         env = ecd.env_for(case["cref"]) if case["kind"] == "toy" else None
@@ -470,9 +550,23 @@ def main(ctx):
                               real_hashes, real=True)
     for ch in common.chunks(items, 12 * ctx.jobs):
         jobs.append((shard_config, "config-cross", ch))
+    # one mutable message / digest buffer signed, refilled, signed again
+    msgs = [b"\x00" * 4, b"\x00\x00\x00\x01", b"abcd", b"abce", b"\xff" * 4,
+            b"\x80\x00\x00\x00"]
+    rt = catalog.first("h1", "nbits16")
+    for ch in common.chunks([1, 2, rt.n // 2, rt.n - 1], 4):
+        jobs.append((shard_reuse, "mutable-buffer-reused",
+                     ("toy", rt.rec(), ch, msgs)))
+    for nm in ("NIST192p", "SECP160r1") if ctx.quick else names:
+        c = getattr(cv, nm)
+        jobs.append((shard_reuse, "mutable-buffer-reused",
+                     ("real", nm, [1, int(c.order) - 1],
+                      msgs[:ctx.pick(3, 6)])))
     rep = common.run_shards(ctx, jobs)
     rep.rule = (
-        "toy-core: all d x all k x digests (all 1-byte + structured) through "
+        "mutable-buffer-reused: one bytearray / memoryview / array object "
+        "signed, refilled in place and signed again by one key object, all "
+        "ordered message pairs; toy-core: all d x all k x digests (all 1-byte + structured) through "
         "sign_digest(k=) -> verify_digest, plus deterministic signing per "
         "(d, digest, hash); config-cross: boundary (d, k, msg) grid crossed "
         "fully with each single dimension of {7 entry points, 6 encoders with "
